@@ -6,19 +6,20 @@ import ZChain.Props.C10
 Property theorems about `Model/Provider.lean` (tied to `smartcontract/provider`, `storagesc`, `minersc`, `stakepool`
 on every run by `harness/cmd/c23`). The model carries **the key under which `provider.Kill` / `provider.ShutDown` save
 the stake pool as a parameter** (`SaveKey`); theorems named `…K…` hold for every key that names the provider's own
-record (`SaveKey.Own`), the ones without `K` are about the code as it is (`killSaveKey = req.ID`,
-`shutDownSaveKey = clientId`).
+record (`SaveKey.Own`), the ones without `K` are about the code as it is: `killSaveKey = req.ID`,
+`shutDownSaveKey = p.Id()` (repo commit d221d33; it was the caller's `clientId` before, and the `oldKey_…` witnesses
+record what that key did — they are statements about `SaveKey.caller`, no longer about the code).
 
-* `kill_disable_effect`, `shutdownK_disable_effect` (+ `shutdown_disable_effect_partial`,
-  `shutdown_disable_effect_false`): an authorised first kill / shut-down marks the provider's own pool dead and
-  multiplies every delegate balance once by `1 − slash` (truncated); an empty provider is removed altogether;
+* `kill_disable_effect`, `shutdown_disable_effect` (+ `killed_pool_balances`, `slash_never_increases`): an authorised
+  first kill / shut-down marks the provider's own pool dead and multiplies every delegate balance once by `1 − slash`
+  (truncated); an empty provider is removed altogether; `oldKey_shutdown_disable_effect_false`;
 * `killMiner_effect`: miners / sharders — both flags set, no slashing (minersc configures none);
 * `second_attempt_keeps_stake`: once the provider record is flagged, no kill / shut-down by anybody changes any
   delegate balance or dead flag again;
-* `no_more_rewards` (+ `kill_then_no_rewards`, `shutdown_still_rewarded_witness`);
-* `kill_unauthorised_noop`, `shutdown_unauthorised_noop_partial`, `shutdown_unauthorised_changes_witness`,
-  `unauthorised_can_panic_witness`;
-* `kill_frame`, `shutdownK_frame`, `shutdown_frame_partial`, `shutdown_creates_node_witness`.
+* `no_more_rewards`, `kill_then_no_rewards`, `shutdown_then_no_rewards` (`oldKey_shutdown_still_rewarded_witness`);
+* `kill_unauthorised_noop`, `shutdown_unauthorised_noop_partial`, `shutdown_unauthorised_changes_witness` (STILL a
+  defect of the code: the already-shut-down branch runs before authorisation), `unauthorised_can_panic_witness`;
+* `kill_frame`, `shutdown_frame`, `shutdownK_frame` (`oldKey_shutdown_creates_node_witness`).
 -/
 namespace ZChain.Provider
 open ZChain ZChain.Coin
@@ -28,7 +29,8 @@ def SaveKey.Own (key : SaveKey) (r : Req) : Prop := key.eval r r.reqId = r.reqId
 
 theorem killSaveKey_own (r : Req) : killSaveKey.Own r := rfl
 theorem provId_own (r : Req) : SaveKey.provId.Own r := rfl
-theorem shutDownSaveKey_own_iff (r : Req) : shutDownSaveKey.Own r ↔ r.caller = r.reqId := Iff.rfl
+theorem shutDownSaveKey_own (r : Req) : shutDownSaveKey.Own r := rfl
+theorem callerKey_own_iff (r : Req) : SaveKey.caller.Own r ↔ r.caller = r.reqId := Iff.rfl
 
 /-- the state of a storage provider `i` of kind `k` after it was disabled: its record carries the flag and its own
 pool is the killed pool `sp'` — or, when nothing was staked (and, for a blobber, nothing stored), both are gone. -/
@@ -205,9 +207,8 @@ theorem kill_disable_effect (cfg : Cfg) (s : State) (r : Req) (k : Kind) (p : Pr
     unfold killTxn; rw [this, exec_ok]
     exact ⟨rfl, disabled_of_txn h2⟩
 
-/-- **disable_effect (shut-down)**, full strength — for a `ShutDown` that saves under a key naming the provider's own
-record (`req.ID` or `p.Id()`): the statement the property makes. It is FALSE of the code (`shutDownSaveKey = clientId`),
-see `shutdown_disable_effect_false`. -/
+/-- **disable_effect (shut-down)** for every `ShutDown` whose save key names the provider's own record (`req.ID` or
+`p.Id()`). It is false for the key `clientId` the code used before d221d33: `oldKey_shutdown_disable_effect_false`. -/
 theorem shutdownK_disable_effect (key : SaveKey) (cfg : Cfg) (s : State) (r : Req) (k : Kind) (p : Prov) (sp sp' : SP)
     (hown : key.Own r) (hk : k = .blobber ∨ k = .validator)
     (hp : kvGet s.provs r.reqId = some p) (hpk : p.kind = k) (hl1 : p.killed = false) (hl2 : p.shutDown = false)
@@ -221,23 +222,25 @@ theorem shutdownK_disable_effect (key : SaveKey) (cfg : Cfg) (s : State) (r : Re
   · exact shutdownBlobberK_disable_effect key cfg s r p sp sp' hown hp hpk hl1 hl2 hsp hauth hkill
   · exact shutdownValidatorK_disable_effect key cfg s r p sp sp' hown hp hpk hl1 hl2 hsp hauth hkill
 
-/-- **disable_effect (shut-down, the code as it is) — partial**: it holds only when the caller's id IS the provider's
-id (the contract owner shutting down a provider it runs itself). Missing: every other authorised caller. -/
-theorem shutdown_disable_effect_partial (cfg : Cfg) (s : State) (r : Req) (k : Kind) (p : Prov) (sp sp' : SP)
-    (hself : r.caller = r.reqId) (hk : k = .blobber ∨ k = .validator)
+/-- **disable_effect (shut-down, the code as it is)** — full strength: an authorised shut-down (contract owner or the
+provider's delegate wallet) of a live blobber / validator succeeds, flags the provider and leaves ITS OWN stake pool dead
+and slashed once by `kill_slash / 2` (`killed_pool_balances`) — or removes an empty provider. -/
+theorem shutdown_disable_effect (cfg : Cfg) (s : State) (r : Req) (k : Kind) (p : Prov) (sp sp' : SP)
+    (hk : k = .blobber ∨ k = .validator)
     (hp : kvGet s.provs r.reqId = some p) (hpk : p.kind = k) (hl1 : p.killed = false) (hl2 : p.shutDown = false)
     (hsp : kvGet s.sps (k, r.reqId) = some sp) (hauth : cfg.owner = r.caller ∨ sp.wallet = some r.caller)
     (hkill : spKill sp (halfSlash cfg) = .ok sp') :
     (shutdownTxn cfg k s r).2 = .ok ∧
     Disabled (shutdownTxn cfg k s r).1 k r.reqId { p with shutDown := true } sp' (k == .blobber) := by
-  obtain ⟨s', h1, h2⟩ := shutdownK_disable_effect shutDownSaveKey cfg s r k p sp sp' ((shutDownSaveKey_own_iff r).mpr hself)
+  obtain ⟨s', h1, h2⟩ := shutdownK_disable_effect shutDownSaveKey cfg s r k p sp sp' (shutDownSaveKey_own r)
     hk hp hpk hl1 hl2 hsp hauth hkill
   have : shutdown cfg k s r = .ok s' := by
     rcases hk with rfl | rfl <;> exact h1
   unfold shutdownTxn; rw [this, exec_ok]
   exact ⟨rfl, disabled_of_txn h2⟩
 
-/-! ### negation witness: shut-down by the delegate wallet (the design-phase probe, replayed by `harness/cmd/c23`) -/
+/-! ### the old save key (`clientId`, before d221d33): what the design-phase probe showed; kept as statements about
+`SaveKey.caller` — a regression to that key is reported by the oracle as `C23:shutdown-saves-under-caller-id` -/
 
 def half : F64 := F64.ofBits 0x3fe0000000000000      -- 0.5
 def tenth : F64 := F64.ofBits 0x3fb999999999999a     -- 0.1
@@ -262,15 +265,26 @@ def s0 : State :=
 def sp0Dead : SP :=
   { sp0 with dead := true, pools := [(41, ⟨7500000000000, 0, 1700000000⟩), (42, ⟨2497500000005, 0, 1700000000⟩)] }
 
-/-- **disable_effect is false of `shutdown_blobber` as coded.** Blobber 30's delegate wallet (50) shuts it down: the call
+/-- `shutdown_blobber` with the OLD save key `clientId`. -/
+def oldShutdownTxn (cfg : Cfg) (s : State) (r : Req) : State × Status :=
+  exec s r.caller (noTransfers (shutdownBlobberK .caller cfg s r))
+
+/-- **disable_effect was false with the old save key.** Blobber 30's delegate wallet (50) shuts it down: the call
 succeeds, the provider is flagged — but `blobber:stakepool:30` is untouched (not dead, not slashed) and the dead,
 slashed copy sits under `blobber:stakepool:50`. -/
-theorem shutdown_disable_effect_false :
-    (shutdownTxn cfg0 .blobber s0 ⟨50, 30⟩).2 = .ok ∧
-    kvGet (shutdownTxn cfg0 .blobber s0 ⟨50, 30⟩).1.provs 30 = some ⟨.blobber, true, false, false⟩ ∧
-    kvGet (shutdownTxn cfg0 .blobber s0 ⟨50, 30⟩).1.sps (.blobber, 30) = some sp0 ∧
+theorem oldKey_shutdown_disable_effect_false :
+    (oldShutdownTxn cfg0 s0 ⟨50, 30⟩).2 = .ok ∧
+    kvGet (oldShutdownTxn cfg0 s0 ⟨50, 30⟩).1.provs 30 = some ⟨.blobber, true, false, false⟩ ∧
+    kvGet (oldShutdownTxn cfg0 s0 ⟨50, 30⟩).1.sps (.blobber, 30) = some sp0 ∧
     kvGet s0.sps (.blobber, 50) = none ∧
-    kvGet (shutdownTxn cfg0 .blobber s0 ⟨50, 30⟩).1.sps (.blobber, 50) = some sp0Dead := by
+    kvGet (oldShutdownTxn cfg0 s0 ⟨50, 30⟩).1.sps (.blobber, 50) = some sp0Dead := by
+  decide +kernel
+
+/-- the same call with the code as it is now: blobber 30's OWN pool is the dead, slashed one and nothing appears
+under the caller's id (non-vacuity of `shutdown_disable_effect` / `shutdown_frame`). -/
+example : (shutdownTxn cfg0 .blobber s0 ⟨50, 30⟩).2 = .ok ∧
+    kvGet (shutdownTxn cfg0 .blobber s0 ⟨50, 30⟩).1.sps (.blobber, 30) = some sp0Dead ∧
+    kvGet (shutdownTxn cfg0 .blobber s0 ⟨50, 30⟩).1.sps (.blobber, 50) = none := by
   decide +kernel
 
 example : reduction half = .fin false (2 ^ 52) 1021 ∧ 2 ^ 52 * 2 ^ 1021 ≤ 2 ^ 1074 := by decide +kernel
@@ -488,11 +502,26 @@ theorem kill_then_no_rewards (cfg : Cfg) (s : State) (r : Req) (k : Kind) (p : P
     rw [getSP_of_ne _ k r.reqId hka]; exact hd.2
   exact no_more_rewards _ s'' k r.reqId v sp' hg (spKill_spec hkill).1 h
 
-/-- **no_more_rewards is false after `shutdown_blobber` as coded**: on the state of `shutdown_disable_effect_false`
-(shut down by its delegate wallet) a reward of 1 000 000 to blobber 30 is still credited: 100 000 service charge and
-675 169 + 224 831 to the two delegates. -/
-theorem shutdown_still_rewarded_witness :
-    (payReward (shutdownTxn cfg0 .blobber s0 ⟨50, 30⟩).1 .blobber 30 1000000).toOption.bind
+/-- **no_more_rewards after a shut-down** (the code as it is): combine `shutdown_disable_effect` with `no_more_rewards`. -/
+theorem shutdown_then_no_rewards (cfg : Cfg) (s : State) (r : Req) (k : Kind) (p : Prov) (sp sp' : SP) (v : Nat) (s'' : State)
+    (hk : k = .blobber ∨ k = .validator)
+    (hp : kvGet s.provs r.reqId = some p) (hpk : p.kind = k) (hl1 : p.killed = false) (hl2 : p.shutDown = false)
+    (hsp : kvGet s.sps (k, r.reqId) = some sp) (hauth : cfg.owner = r.caller ∨ sp.wallet = some r.caller)
+    (hkill : spKill sp (halfSlash cfg) = .ok sp') (hne : sp.pools.isEmpty = false)
+    (h : payReward (shutdownTxn cfg k s r).1 k r.reqId v = .ok s'') : s'' = (shutdownTxn cfg k s r).1 := by
+  obtain ⟨_, hd⟩ := shutdown_disable_effect cfg s r k p sp sp' hk hp hpk hl1 hl2 hsp hauth hkill
+  have hne' : sp'.pools.isEmpty = false := by rw [(spKill_spec hkill).2.2.2.2.2.2.2.2.1]; exact hne
+  unfold Disabled at hd
+  simp only [hne', Bool.and_false, Bool.false_eq_true, ↓reduceIte] at hd
+  have hka : k ≠ .authorizer := by rcases hk with rfl | rfl <;> decide
+  have hg : getSP (shutdownTxn cfg k s r).1 k r.reqId = some sp' := by
+    rw [getSP_of_ne _ k r.reqId hka]; exact hd.2
+  exact no_more_rewards _ s'' k r.reqId v sp' hg (spKill_spec hkill).1 h
+
+/-- **no_more_rewards was false with the old save key**: on the state of `oldKey_shutdown_disable_effect_false` a reward
+of 1 000 000 to blobber 30 is still credited: 100 000 service charge and 675 169 + 224 831 to the two delegates. -/
+theorem oldKey_shutdown_still_rewarded_witness :
+    (payReward (oldShutdownTxn cfg0 s0 ⟨50, 30⟩).1 .blobber 30 1000000).toOption.bind
         (fun s => kvGet s.sps (.blobber, 30)) =
       some { sp0 with reward := 100000,
                       pools := [(41, ⟨10000000000000, 675169, 1700000000⟩), (42, ⟨3330000000007, 224831, 1700000000⟩)] } := by
@@ -671,31 +700,33 @@ theorem shutdownK_frame (key : SaveKey) (cfg : Cfg) (s : State) (r : Req) (hown 
   ⟨txnFrame_of fun _ h => (shutdownBlobberK_frame h).mono (touched_own hown),
    txnFrame_of fun _ h => (shutdownValidatorK_frame h).mono (touched_own hown)⟩
 
-/-- **frame (shut-down, the code as it is) — partial**: everything outside the provider's own records AND the
-stake-pool key `<kind>:stakepool:<caller id>` is unchanged. Missing (and false, `shutdown_creates_node_witness`):
-that key itself. -/
-theorem shutdown_frame_partial (cfg : Cfg) (k : Kind) (s : State) (r : Req) :
-    TxnFrame s (shutdownTxn cfg k s r).1 r (touched shutDownSaveKey s r) := by
+/-- **frame (shut-down, the code as it is)** — full strength: whatever the kind, the caller and the `provider_id`, a
+`shutdown_*` transaction leaves every record other than the named provider's own unchanged and creates no stake-pool
+record. -/
+theorem shutdown_frame (cfg : Cfg) (k : Kind) (s : State) (r : Req) :
+    TxnFrame s (shutdownTxn cfg k s r).1 r (ownKeys s r) := by
   unfold shutdownTxn
   apply txnFrame_of
   intro s' h
   cases k with
-  | blobber => exact shutdownBlobberK_frame h
-  | validator => exact shutdownValidatorK_frame h
+  | blobber => exact (shutdownBlobberK_frame h).mono (touched_own (shutDownSaveKey_own r))
+  | validator => exact (shutdownValidatorK_frame h).mono (touched_own (shutDownSaveKey_own r))
   | miner => injection h with h; subst h; exact Frame.refl _ _ _
   | sharder => injection h with h; subst h; exact Frame.refl _ _ _
   | authorizer => injection h with h; subst h; exact Frame.refl _ _ _
 
-/-- **frame is false of `shutdown_*` as coded**: the shut-down of blobber 30 by its delegate wallet 50 CREATES the record
+/-- **frame was false with the old save key**: the shut-down of blobber 30 by its delegate wallet 50 CREATED the record
 `blobber:stakepool:50`, which is none of provider 30's keys. -/
-theorem shutdown_creates_node_witness :
+theorem oldKey_shutdown_creates_node_witness :
     (Kind.blobber, 50) ∉ ownKeys s0 ⟨50, 30⟩ ∧ kvGet s0.sps (.blobber, 50) = none ∧
-    (kvGet (shutdownTxn cfg0 .blobber s0 ⟨50, 30⟩).1.sps (.blobber, 50)).isSome = true := by
+    (kvGet (oldShutdownTxn cfg0 s0 ⟨50, 30⟩).1.sps (.blobber, 50)).isSome = true := by
   decide +kernel
 
 -- non-vacuity of the frame theorems: the kill of blobber 30 by the owner touches exactly its own two records
 example : ownKeys s0 ⟨3, 30⟩ = [(.blobber, 30)] := by decide
 example : kvGet (killTxn cfg0 .blobber s0 ⟨3, 30⟩).1.sps (.miner, 10) = kvGet s0.sps (.miner, 10) :=
   (kill_frame cfg0 .blobber s0 ⟨3, 30⟩).sps _ (by decide)
+example : kvGet (shutdownTxn cfg0 .blobber s0 ⟨50, 30⟩).1.sps (.blobber, 50) = none :=
+  (shutdown_frame cfg0 .blobber s0 ⟨50, 30⟩).sps (.blobber, 50) (by decide)
 
 end ZChain.Provider
